@@ -352,3 +352,86 @@ func (c *ctxT) c03KeyLayoutLean() string {
 	emit("pendingClaimKeyParts", "GetPendingExecuteClaimKey", "`types.GetPendingExecuteClaimKey(nonce)`")
 	return sb.String()
 }
+
+// c03Dispatch: the two type switches that decide WHEN a claim is executed — `AttestationHandler` (which claim types are
+// only stored by SavePendingExecuteClaim, which are handled at once) and `ExecuteClaim` (which stored types it can run)
+func (c *ctxT) c03Dispatch() (stored, immediate, runnable []string, problems []string) {
+	cases := func(fn string, visit func(types []string, body []ast.Stmt, isDefault bool)) {
+		fd := c.findFunc(c03Keeper, "Keeper", fn)
+		if fd == nil || fd.Body == nil {
+			problems = append(problems, fn+" not found")
+			return
+		}
+		found := false
+		ast.Inspect(fd.Body, func(n ast.Node) bool {
+			ts, ok := n.(*ast.TypeSwitchStmt)
+			if !ok || found {
+				return true
+			}
+			found = true
+			for _, cc := range ts.Body.List {
+				cl := cc.(*ast.CaseClause)
+				var tys []string
+				for _, t := range cl.List {
+					tys = append(tys, strings.TrimPrefix(strings.TrimPrefix(c.src(t), "*"), "types."))
+				}
+				visit(tys, cl.Body, cl.List == nil)
+			}
+			return false
+		})
+		if !found {
+			problems = append(problems, fn+": no type switch")
+		}
+	}
+	callsIn := func(body []ast.Stmt, name string) bool {
+		hit := false
+		for _, st := range body {
+			ast.Inspect(st, func(n ast.Node) bool {
+				if ce, ok := n.(*ast.CallExpr); ok && strings.HasSuffix(c.src(ce.Fun), "."+name) {
+					hit = true
+				}
+				return true
+			})
+		}
+		return hit
+	}
+	cases("AttestationHandler", func(tys []string, body []ast.Stmt, isDefault bool) {
+		if isDefault {
+			return
+		}
+		if callsIn(body, "SavePendingExecuteClaim") {
+			stored = append(stored, tys...)
+		} else {
+			immediate = append(immediate, tys...)
+		}
+	})
+	cases("ExecuteClaim", func(tys []string, body []ast.Stmt, isDefault bool) {
+		if !isDefault {
+			runnable = append(runnable, tys...)
+		}
+	})
+	sort.Strings(stored)
+	sort.Strings(immediate)
+	sort.Strings(runnable)
+	return
+}
+
+func (c *ctxT) c03DispatchLean() string {
+	stored, immediate, runnable, problems := c.c03Dispatch()
+	q := func(xs []string) string {
+		var out []string
+		for _, x := range xs {
+			out = append(out, leanStr(x))
+		}
+		return leanList(out)
+	}
+	var sb strings.Builder
+	for _, p := range problems {
+		fmt.Fprintf(&sb, "-- extractor: %s\n", p)
+	}
+	fmt.Fprintf(&sb, "/-- `AttestationHandler`: the claim types whose case only calls `SavePendingExecuteClaim` (executed later by `ExecuteClaim`) -/\ndef storedTypes : List String := %s\n\n", q(stored))
+	fmt.Fprintf(&sb, "/-- `AttestationHandler`: the claim types handled at once -/\ndef immediateTypes : List String := %s\n\n", q(immediate))
+	fmt.Fprintf(&sb, "/-- `ExecuteClaim`: the stored claim types it can run -/\ndef runnableTypes : List String := %s\n\n", q(runnable))
+	c.facts["C03.dispatch"] = map[string]any{"stored": stored, "immediate": immediate, "runnable": runnable, "problems": problems}
+	return sb.String()
+}
